@@ -11,6 +11,7 @@ interleaving (registration racing with completions, stale pre-check loads includ
 import YaclibModel.Proofs.WhenSpec
 import YaclibModel.Proofs.WhenComposeProgress
 import YaclibModel.Proofs.WhenComposeSharedSim
+import YaclibModel.Proofs.WhenComposeMixed
 import YaclibModel.Extracted.Kernels
 import YaclibModel.Model.Skeletons
 
@@ -290,6 +291,31 @@ theorem inputs_released_once_shared (hwf : W.w.wf) (h : WhenS.Reachable W T) :
   inputs_released_once hwf (WhenS.sim hwf h).1
 
 end ComposedShared
+
+/-! ### packs mixing unique and shared inputs (Model/WhenComposeMixed.lean, see Props/C09.lean `mixed_input_interface_sound`) -/
+
+section ComposedMixed
+variable {M : WhenM.Workload} {R : WhenM.State}
+
+theorem any_mixed_input_interface_sound (hwf : M.w.wf) (h : WhenM.Reachable M R) : Reachable M.w R.wh :=
+  (WhenM.sim hwf h).1
+
+theorem any_set_once_mixed (hwf : M.w.wf) (ha : IsAny M.w) (h : WhenM.Reachable M R) :
+    R.wh.outSet.length ≤ 1 ∧ ∀ o, o ∈ R.wh.outSet → ∃ k, k < M.w.n ∧ o = .one (M.w.inp k) :=
+  any_set_once hwf ha (WhenM.sim hwf h).1
+
+theorem any_lastfail_spec_mixed (hwf : M.w.wf) (hs : M.w.strat = .anyLF) (h : WhenM.Reachable M R) :
+    ∀ o, o ∈ R.wh.outSet → ∃ k, R.wh.win = some k ∧ k < M.w.n ∧ o = .one (M.w.inp k) ∧
+      (match R.wh.rmwOrder.find? (isVal M.w) with
+       | some v => k = v
+       | none => R.wh.rmwOrder.getLast? = some k ∧ ∀ j, j < M.w.n → ok (M.w.inp j) = false) :=
+  any_lastfail_spec hwf hs (WhenM.sim hwf h).1
+
+theorem inputs_released_once_mixed (hwf : M.w.wf) (h : WhenM.Reachable M R) :
+    ∀ i, R.wh.consumed i ≤ 1 ∧ R.wh.released i ≤ 1 :=
+  inputs_released_once hwf (WhenM.sim hwf h).1
+
+end ComposedMixed
 
 /-! ### non-vacuity -/
 
